@@ -97,6 +97,12 @@ func runC07x(c *GCase, clone bool, st *Stats) (dd *c07Diffs, err error) {
 			}
 		}
 	}
+	// the public entry point with the rule itself as root (no Sentence): whatever Parse does with the
+	// list of alternatives it gets, the list belongs to the parsers that returned it
+	func() {
+		defer func() { _ = recover() }()
+		_, _ = parsley.Parse(ctx, b.NT[0])
+	}()
 	compare("after the parse")
 	shared := false
 	for _, v := range probe.asks {
